@@ -566,6 +566,37 @@ where
                     Some(_) => "SomeOther",
                 };
                 log.ev(json!({"ev": "TLDecrypt", "ct": tlcts[c].0, "sig": p.sigs[si].0, "res": res}));
+                // an altered copy of the ciphertext presented with the same signature
+                if rng.gen_bool(0.5) {
+                    let mut t = tlcts[c].1.clone();
+                    let nlen = tlcts[c].2.len();
+                    let mut tidx = String::new();
+                    let (op, arg): (&str, String) = match rng.gen_range(0..8) {
+                        0 => { t.u = -t.u; ("UNeg", String::new()) }
+                        1 => { t.u += <C as Pairing>::PublicKey::generator(); ("UAddGen", String::new()) }
+                        2 => { t.u = <C as Pairing>::PublicKey::identity(); ("UId", String::new()) }
+                        3 => { let b = rng.gen_range(0..256); t.v[b / 8] ^= 1 << (b % 8); tidx = format!("bit{b};"); ("VFlip", String::new()) }
+                        4 => { let b = rng.gen_range(0..7); t.w[0] ^= 1 << b; tidx = format!("bit{b};"); ("W", "flip-prefix".to_string()) }
+                        5 => { t.w.push(0x33); ("W", "extend".to_string()) }
+                        6 if nlen > 0 => { t.w[1] ^= 0x10; ("W", "flip-message".to_string()) }
+                        _ => {
+                            let cur = scheme_name(t.scheme);
+                            let others: Vec<&str> = ["Basic", "Aug", "Pop"].iter().copied().filter(|x| *x != cur).collect();
+                            let s2 = others[rng.gen_range(0..2)];
+                            t.scheme = scheme_of(s2);
+                            ("Relabel", s2.to_string())
+                        }
+                    };
+                    let tid = log.id("tlct", &Vec::<u8>::from(&t));
+                    log.ev(json!({"ev": "TLTamper", "of": tlcts[c].0, "op": op, "arg": arg, "tid": tidx, "out": tid}));
+                    let r: Option<Vec<u8>> = t.decrypt(&p.sigs[si].1).into();
+                    let res = match &r {
+                        None => "None",
+                        Some(m) if *m == tlcts[c].2 => "Some",
+                        Some(_) => "SomeOther",
+                    };
+                    log.ev(json!({"ev": "TLDecrypt", "ct": tid, "sig": p.sigs[si].0, "res": res}));
+                }
             } else if roll < 80 {
                 // signcryption
                 let i = rng.gen_range(0..nk);
@@ -585,6 +616,38 @@ where
                     Some(_) => "SomeOther",
                 };
                 log.ev(json!({"ev": "SCDecrypt", "ct": id, "sk": p.sks[k].0, "res": res}));
+                // the adversary alters the ciphertext the recipient has just used; the recipient sees the altered one
+                if rng.gen_bool(0.6) {
+                    let mut t = ct.clone();
+                    let mut tidx = String::new();
+                    let (op, arg): (&str, String) = match rng.gen_range(0..10) {
+                        0 => { t.u = -t.u; ("UNeg", String::new()) }
+                        1 => { t.u += <C as Pairing>::PublicKey::generator(); ("UAddGen", String::new()) }
+                        2 => { t.u = <C as Pairing>::PublicKey::identity(); ("UId", String::new()) }
+                        3 => { t.w = -t.w; ("WNeg", String::new()) }
+                        4 => { t.w += <C as Pairing>::Signature::generator(); ("WAddGen", String::new()) }
+                        5 => { t.w = <C as Pairing>::Signature::identity(); ("WId", String::new()) }
+                        6 => { t.u = <C as Pairing>::PublicKey::identity(); t.w = <C as Pairing>::Signature::identity(); ("UWId", String::new()) }
+                        7 => { let b = rng.gen_range(0..8); t.v[0] ^= 1 << b; tidx = format!("bit{b};"); ("VFlip", "prefix".to_string()) }
+                        8 => { t.v.push(0); ("VExtend", String::new()) }
+                        _ => {
+                            let others: Vec<&str> = ["Basic", "Aug", "Pop"].iter().copied().filter(|x| *x != scheme).collect();
+                            let s2 = others[rng.gen_range(0..2)];
+                            t.scheme = scheme_of(s2);
+                            ("Relabel", s2.to_string())
+                        }
+                    };
+                    let tid = log.id("scct", &Vec::<u8>::from(&t));
+                    log.ev(json!({"ev": "SCTamper", "of": id, "op": op, "arg": arg, "tid": tidx, "out": tid}));
+                    log.ev(json!({"ev": "SCValid", "ct": tid, "res": bool::from(t.is_valid())}));
+                    let r: Option<Vec<u8>> = t.decrypt(&p.sks[i].1).into();
+                    let res = match &r {
+                        None => "None",
+                        Some(x) if *x == m => "Some",
+                        Some(_) => "SomeOther",
+                    };
+                    log.ev(json!({"ev": "SCDecrypt", "ct": tid, "sk": p.sks[i].0, "res": res}));
+                }
                 sccts.push((id, ct, m, i));
             } else if roll < 90 && !sccts.is_empty() {
                 // threshold decryption of a signcryption ciphertext by a deal of the recipient key (or of another key)
